@@ -304,10 +304,10 @@ ApplySel(sel, n, r) ==
                           [k \in 1..Len(ix) |-> MkNode(Append(p, PIdx(ix[k])), v[2][ix[k] + 1])]
          ELSE <<>>
     [] sel[1] = "filter" -> FilterKids(sel[2], Kids(n), 1, r) \o UOIf(v)
-    [] sel[1] = "path" ->      \* [data] union.json "JSONPath union of multiple different paths": a path relative to
-                               \* the current node (@...) as a union member.  An absolute path ($...) as a member is not
-                               \* mentioned by [doc] or [data]: decided only where $ and @ coincide (at the root).
-         IF sel[2] = "cur" \/ p = <<>> THEN EvalSegs(sel[3], <<n>>, r) ELSE <<DCMark>>
+    [] sel[1] = "path" ->      \* [data] union.json "JSONPath union of multiple different paths": a non-empty path relative
+                               \* to the current node (@.x, @[i]...) as a union member.  An absolute path ($...) or a bare @ as
+                               \* a member is mentioned by neither [doc] nor [data]: don't care.
+         IF sel[2] = "cur" /\ sel[3] # <<>> THEN EvalSegs(sel[3], <<n>>, r) ELSE <<DCMark>>
 
 (* [rfc] 2.5.1.2: the child segment concatenates the results of its selectors in order *)
 ApplySels(sels, i, n, r) == IF i > Len(sels) THEN <<>> ELSE ApplySel(sels[i], n, r) \o ApplySels(sels, i + 1, n, r)
